@@ -2311,9 +2311,13 @@ mod fields_ext {
                 _ => {}
             }
             Ok(match ty {
-                syn::Type::Tuple(syn::TypeTuple { elems, .. }) => {
+                syn::Type::Tuple(syn::TypeTuple { elems, .. })
+                    if self.len() > 1 || elems.len() == 1 =>
+                {
                     Either::Left(elems.iter())
                 }
+                // A single field is converted from the whole type, even if that is a tuple of
+                // another arity (like `()`), so there is always one type per field.
                 other => Either::Right(iter::once(other)),
             })
         }
